@@ -117,6 +117,8 @@ class DerivationMonitor(Monitor):
 
 
 def setup(concepts, spec):
+    from .. import probes
+    probes.install(['prime'])
     attach.attach_ctor(concepts)
     attach.attach(concepts.contexts.PrimeMixin, 'intension', DerivationMonitor('o'))
     attach.attach(concepts.contexts.PrimeMixin, 'extension', DerivationMonitor('p'))
